@@ -7,6 +7,8 @@ from types import MethodType
 from itertools import chain
 from functools import partial
 
+import numpy as np
+
 from openmdao.core.implicitcomponent import ImplicitComponent
 from openmdao.utils.om_warnings import issue_warning
 from openmdao.utils.jax_utils import jax, jit, jnp, _jax_register_pytree_class, \
@@ -417,6 +419,10 @@ class JaxImplicitComponent(ImplicitComponent):
             J = self._coloring_info.coloring._expand_jac(J, 'fwd')
             partials.set_csc_jac(self, J)
         else:
+            # coloring was requested but not kept: the uncompressed columns follow the
+            # compute_primal arguments (inputs, then outputs); the jacobian wants outputs first
+            nin = len(inputs)
+            J = np.hstack((J[:, nin:], J[:, :nin]))
             partials.set_dense_jac(self, J)
 
     def _jacrev_colored(self, inputs, outputs, partials):
@@ -433,6 +439,10 @@ class JaxImplicitComponent(ImplicitComponent):
             The partials to compute.
         """
         J = self._jac_func_(self._tangents['rev'], tuple(chain(inputs.values(), outputs.values())))
+        # the vjp results are ordered like the compute_primal arguments (inputs, then outputs)
+        # but the columns of the jacobian / coloring are ordered outputs first, then inputs
+        nins = inputs.nvars()
+        J = tuple(J[nins:]) + tuple(J[:nins])
         J = _jax2np(J).T
         if self._coloring_info.coloring is not None:
             J = self._coloring_info.coloring._expand_jac(J, 'rev')
@@ -461,9 +471,9 @@ class JaxImplicitComponent(ImplicitComponent):
         if self._sparsity is None:
             if self._has_approx:
                 self._sparsity = super().compute_sparsity(direction=direction, num_iters=num_iters,
-                                                          perturb_size=perturb_size)[0]
+                                                          perturb_size=perturb_size)
             else:
-                self._sparsity = _compute_sparsity(self, direction, num_iters, perturb_size)[0]
+                self._sparsity = _compute_sparsity(self, direction, num_iters, perturb_size)
 
         return self._sparsity
 
@@ -495,9 +505,16 @@ class JaxImplicitComponent(ImplicitComponent):
         """
         if self._tangents[direction] is None:
             if direction == 'fwd':
-                self._tangents[direction] = get_vmap_tangents(tuple(chain(self._inputs.values(),
-                                                                          self._outputs.values())),
-                                                              direction, fill=1., coloring=coloring)
+                if coloring is None:
+                    vals = tuple(chain(self._inputs.values(), self._outputs.values()))
+                    self._tangents[direction] = get_vmap_tangents(vals, direction, fill=1.)
+                else:
+                    # the columns of the coloring are in jacobian order (outputs first, then
+                    # inputs) but compute_primal takes the inputs first, then the outputs
+                    nouts = self._outputs.nvars()
+                    vals = tuple(chain(self._outputs.values(), self._inputs.values()))
+                    tans = get_vmap_tangents(vals, direction, fill=1., coloring=coloring)
+                    self._tangents[direction] = tans[nouts:] + tans[:nouts]
             else:
                 self._tangents[direction] = get_vmap_tangents(tuple(self._outputs.values()),
                                                               direction, fill=1., coloring=coloring)
